@@ -33,7 +33,7 @@ PROPS = {
              "between parse and encode; distinct by hash of the case term",
         level_text="Coq proofs, for all inputs and ALL iteration orders: the inner map of resolve_on_end (keys Before / After) resolves to the same "
                    "flags in any order (permutation theorem over distinct modes; Lowering.resolve_pend2 is what every order computes); "
-                   "resolve_on_else_or_end has a single key; the id maps answer lookups independently of their arrangement; ModuleTypes::new "
+                   "the inner map of every resolve_on_else_or_end entry (keyed by block id like resolve_on_end) has the single key Before; the id maps answer lookups independently of their arrangement; ModuleTypes::new "
                    "collects the keys of the HashMap of parsed types, sorts them and fills the dedup map in ascending id order: every visiting "
                    "order sorts to the same list, so the dedup map, every returned id and every sequence of additions are the same under any two "
                    "orders -- unconditionally, also when the input has structurally equal types (D11, repaired; the old witness is kept with what "
